@@ -232,6 +232,30 @@ func (e *Engine) Run(h History) (*Mismatch, error) {
 			e.ErrHist[errCode(unhex(ms.atoms()[0]))]++
 		}
 		ctx := CmpCtx{Resp: e.resp[op.Conn], SlackMs: el.Milliseconds() + 25}
+		if len(args) == 2 && strings.EqualFold(string(args[0]), "client") && strings.EqualFold(string(args[1]), "info") && (g.Kind == '$' || g.Kind == '=') && !g.Nil {
+			// what the connection says about itself against the model's session: database, protocol, name, MULTI state
+			if db, rv, name, queued, err := e.mdl.ConnInfo(op.Conn); err == nil {
+				fields := map[string]string{}
+				for _, f := range strings.Fields(strings.TrimPrefix(string(g.Str), "txt:")) {
+					if i := strings.IndexByte(f, '='); i > 0 {
+						fields[f[:i]] = f[i+1:]
+					}
+				}
+				why := ""
+				if fields["db"] != fmt.Sprint(db) {
+					why = fmt.Sprintf("CLIENT INFO reports db=%s, the connection's selected database is %d", fields["db"], db)
+				} else if fields["resp"] != fmt.Sprint(rv) {
+					why = fmt.Sprintf("CLIENT INFO reports resp=%s, the connection speaks RESP%d", fields["resp"], rv)
+				} else if fields["name"] != name {
+					why = fmt.Sprintf("CLIENT INFO reports name=%q, the connection's name is %q", fields["name"], name)
+				} else if (queued < 0) != (fields["multi"] == "-1") {
+					why = fmt.Sprintf("CLIENT INFO reports multi=%s, the model's session has queue state %d", fields["multi"], queued)
+				}
+				if why != "" {
+					return &Mismatch{Index: i, Op: op.String(), Why: why, History: h}, nil
+				}
+			}
+		}
 		if len(args) > 1 {
 			switch strings.ToLower(string(args[0])) {
 			case "scan":
